@@ -228,6 +228,10 @@ type WriterPlan struct {
 	Short      bool // deliver the failure as a short write (n<len(p), err) when possible
 	ReaderFrom bool // expose io.ReaderFrom
 	Transient  bool // the failing Write fails once (accepting nothing); later calls succeed again
+	// ErrValue is the error the device reports instead of ErrInjected: real devices fail
+	// with values that mean something else elsewhere (io.EOF from a pipe whose reader
+	// closed with it, io.ErrShortWrite, io.ErrClosedPipe, io.ErrUnexpectedEOF)
+	ErrValue error
 }
 
 // SimWriter records everything it accepts.
@@ -271,7 +275,7 @@ func (w *SimWriter) Write(p []byte) (int, error) {
 	}
 	if w.Failed {
 		w.CallsAfterFail++
-		return 0, ErrInjected
+		return 0, w.errValue()
 	}
 	if len(p) == 0 {
 		return 0, nil // zero-length writes succeed even on a full device
@@ -292,7 +296,7 @@ func (w *SimWriter) Write(p []byte) (int, error) {
 		if w.plan.Short && room > 0 {
 			w.Accepted = append(w.Accepted, p[:room]...)
 			w.c.Fault("write-short")
-			return room, ErrInjected
+			return room, w.errValue()
 		}
 		if w.plan.Short {
 			w.c.Fault("write-short(0)")
@@ -302,13 +306,21 @@ func (w *SimWriter) Write(p []byte) (int, error) {
 		// Non-short mode: a failing Write accepts nothing of this call; the
 		// device is "full" at FailAt only if FailAt lands on a call boundary,
 		// otherwise it fails at the last boundary before it.
-		return 0, ErrInjected
+		return 0, w.errValue()
 	}
 	w.Accepted = append(w.Accepted, p...)
 	if len(w.Bounds) < 64 {
 		w.Bounds = append(w.Bounds, len(w.Accepted))
 	}
 	return len(p), nil
+}
+
+func (w *SimWriter) errValue() error {
+	if w.plan.ErrValue != nil {
+		w.c.Fault("write-error-with-a-sentinel-value")
+		return w.plan.ErrValue
+	}
+	return ErrInjected
 }
 
 type simWriterRF struct{ *SimWriter }
@@ -392,7 +404,27 @@ func (o onlyReader) Read(p []byte) (int, error) { return o.r.Read(p) }
 // interfaces for which libraries keep fast paths). buffered reports that the
 // wrapper may take more from the stream than its consumer asked for.
 func (c *Ctx) WrapSource(label string, sr *SimReader) (r io.Reader, buffered bool) {
-	switch c.Pick(label+".sourceType", 4) {
+	switch c.Pick(label+".sourceType", 5) {
+	case 4:
+		// a real *os.File positioned behind other data in the same file (an artifact stored
+		// inside a container): only for fault-free delivery plans, whose faults a real file
+		// cannot reproduce
+		if sr.plan.ErrAt >= 0 || sr.pos != 0 {
+			return sr, false
+		}
+		f, err := os.CreateTemp(".", "src-*")
+		if err != nil {
+			return sr, false
+		}
+		c.Cleanup(func() { f.Close(); os.Remove(f.Name()) })
+		prefix := c.Bytes(label+".filePrefix", 0, 64)
+		f.Write(prefix)
+		f.Write(sr.data)
+		if _, err := f.Seek(int64(len(prefix)), io.SeekStart); err != nil {
+			return sr, false
+		}
+		c.Probe("source is an *os.File positioned behind a prefix")
+		return f, false
 	case 0:
 		return onlyReader{sr}, false
 	case 1:
